@@ -122,14 +122,13 @@ theorem readPacket_no_type_error (s : Sock) : (readPacketS s).1 ≠ .typeError :
               rw [hp] at this; simp at this
             · split <;> simp
 
-/-- **On one connection the handshake reader stalls at most once** (every read loop returns at the first timeout or
-    error, and `audit()` stops reading a connection whose banner or first packet could not be read), and it makes at
-    most one `recv` per peer event plus one — so it terminates for every finite peer. -/
+/-- **Reading the identification string stalls at most once** (the loop returns at the first timeout, error or close —
+    after the D17 repair it first reads what is left in the buffer as final lines), and it makes at most one `recv` per
+    peer event plus one — so it terminates for every finite peer. -/
 theorem getBannerAux_spec (fuel : Nat) (h : List Str) (s : Sock) :
     let r := getBannerAux fuel h s
     r.2.2.2.stalls ≤ s.stalls + 1 ∧ r.2.2.2.events.length ≤ s.events.length ∧
-    r.2.2.2.recvs ≤ s.recvs + (s.events.length - r.2.2.2.events.length) + 1 ∧
-    (r.1.isSome → r.2.2.2.stalls = s.stalls ∧ r.2.2.2.recvs ≤ s.recvs + (s.events.length - r.2.2.2.events.length)) := by
+    r.2.2.2.recvs ≤ s.recvs + (s.events.length - r.2.2.2.events.length) + 1 := by
   induction fuel generalizing h s with
   | zero => simp [getBannerAux]
   | succ fuel ih =>
@@ -141,17 +140,15 @@ theorem getBannerAux_spec (fuel : Nat) (h : List Str) (s : Sock) :
       obtain ⟨g1, g2⟩ := h3 hr
       split
       · next b h' rest hs =>
-        simp only [Option.isSome_some, forall_const]
-        exact ⟨by omega, h2, by omega, by omega, by omega⟩
+        exact ⟨by simp only; omega, h2, by simp only; omega⟩
       · next h' x hs =>
-        have := ih h' { (recv s).2 with buf := [] }
+        have := ih h' { (recv s).2 with buf := (Banner.cutLines (recv s).2.buf).2 }
         simp only at this
-        obtain ⟨i1, i2, i3, i4⟩ := this
-        refine ⟨by omega, by omega, by omega, ?_⟩
-        intro hb; obtain ⟨j1, j2⟩ := i4 hb; exact ⟨by omega, by omega⟩
-    | closed => simp only [hr]; exact ⟨h6, h2, by omega, by simp⟩
-    | timedOut => simp only [hr]; exact ⟨h6, h2, by omega, by simp⟩
-    | failed => simp only [hr]; exact ⟨h6, h2, by omega, by simp⟩
+        obtain ⟨i1, i2, i3⟩ := this
+        exact ⟨by omega, by omega, by omega⟩
+    | closed => simp only [hr]; split <;> exact ⟨h6, h2, by simp only; omega⟩
+    | timedOut => simp only [hr]; split <;> exact ⟨h6, h2, by simp only; omega⟩
+    | failed => simp only [hr]; split <;> exact ⟨h6, h2, by simp only; omega⟩
 
 theorem ensureRead_ok (n : Nat) (s s' : Sock) (h : ensureRead n s = (none, s')) :
     s'.stalls = s.stalls ∧ s'.recvs ≤ s.recvs + (s.events.length - s'.events.length) ∧ s'.events.length ≤ s.events.length := by
@@ -211,21 +208,21 @@ theorem readPacket_cost (s : Sock) :
                 simp only at a b c ⊢
                 exact ⟨by omega, by omega, by omega⟩
 
-/-- **The whole handshake on the first connection: at most one stall is ever waited for, and the number of `recv`
-    calls is bounded by the number of peer events plus two** — so the time spent on a connection is at most one timeout
-    beyond the peer's own activity, for every finite peer. -/
+/-- **The whole handshake on the first connection: at most two stalls are ever waited for** (one only if the identification
+    line arrived with its line ending: an unterminated line is accepted after the peer went quiet, and the packet read
+    after it may stall once more), **and the number of `recv` calls is bounded by the number of peer events plus two** — so
+    the time spent on a connection is at most two timeouts beyond the peer's own activity, for every finite peer. -/
 theorem handshake_cost (s : Sock) :
-    (handshakeS s).2.2.stalls ≤ s.stalls + 1 ∧ (handshakeS s).2.2.recvs ≤ s.recvs + s.events.length + 2 := by
+    (handshakeS s).2.2.stalls ≤ s.stalls + 2 ∧ (handshakeS s).2.2.recvs ≤ s.recvs + s.events.length + 2 := by
   unfold handshakeS getBannerS
   have hb := getBannerAux_spec (s.events.length + 1) [] s
   generalize getBannerAux (s.events.length + 1) [] s = gb at hb
   obtain ⟨ob, hd, oe, s1⟩ := gb
   simp only at hb
-  obtain ⟨b1, b2, b3, b4⟩ := hb
+  obtain ⟨b1, b2, b3⟩ := hb
   cases ob with
-  | none => simp only; exact ⟨b1, by omega⟩
+  | none => simp only; exact ⟨by omega, by omega⟩
   | some b =>
-    obtain ⟨c1, c2⟩ := b4 rfl
     simp only
     obtain ⟨d1, d2, d3⟩ := readPacket_cost s1
     generalize readPacketS s1 = rp at d1 d2 d3
